@@ -54,7 +54,7 @@ pub struct LiveNode {
     router: iroh::protocol::Router,
     docs: iroh_docs::protocol::Docs,
     author: AuthorId,
-    _blobs: iroh_blobs::store::mem::MemStore,
+    blobs: iroh_blobs::store::mem::MemStore,
 }
 
 async fn live_node(seed: u8) -> anyhow::Result<LiveNode> {
@@ -74,7 +74,7 @@ async fn live_node(seed: u8) -> anyhow::Result<LiveNode> {
         .spawn();
     let author = Author::from_bytes(&[seed ^ 0x0f; 32]);
     docs.api().author_import(author.clone()).await?;
-    Ok(LiveNode { router, docs, author: author.id(), _blobs: blobs })
+    Ok(LiveNode { router, docs, author: author.id(), blobs })
 }
 
 async fn dump(doc: &Doc) -> Result<BTreeSet<Row>, String> {
@@ -190,6 +190,7 @@ pub struct Stats {
     pub premise_not_met: u64,
     pub passes: u64,
     pub not_settled_examples: Vec<String>,
+    pub downloads_expected: u64,
 }
 
 /// `dec`: the clock of every write is *earlier* than that of the write before it.
@@ -248,8 +249,28 @@ fn show_list(rows: &[Row]) -> String {
     format!("[{}]", v.join(", "))
 }
 
-/// `which`: "C04" reports the swarm clauses, "C12" the subscriber clauses.
+/// The download policies the last node of the swarm is given in the C15 family, with their
+/// definition written out (statement of C15) next to them.
+pub fn policies() -> Vec<(iroh_docs::store::DownloadPolicy, fn(&[u8]) -> bool)> {
+    use iroh_docs::store::{DownloadPolicy, FilterKind};
+    vec![
+        (DownloadPolicy::default(), |_| true),
+        (DownloadPolicy::NothingExcept(vec![FilterKind::Prefix(bytes::Bytes::from_static(b"k1"))]), |k| k.starts_with(b"k1")),
+        (DownloadPolicy::EverythingExcept(vec![FilterKind::Exact(bytes::Bytes::from_static(b"k2"))]), |k| k != b"k2"),
+        (DownloadPolicy::NothingExcept(vec![]), |_| false),
+        (DownloadPolicy::EverythingExcept(vec![FilterKind::Prefix(bytes::Bytes::from_static(b"k")), FilterKind::Exact(bytes::Bytes::from_static(b"zz"))]), |k| !k.starts_with(b"k") && k != b"zz"),
+    ]
+}
+
+async fn has_blob(node: &LiveNode, hash: &[u8; 32]) -> bool {
+    matches!(node.blobs.blobs().status(iroh_blobs::Hash::from_bytes(*hash)).await, Ok(iroh_blobs::api::blobs::BlobStatus::Complete { .. }))
+}
+
+/// `which`: "C04" reports the swarm clauses, "C12" the subscriber clauses, "C15:<i>" gives the
+/// last node download policy number i and reports which contents it fetched.
 pub async fn exec(nodes: &[LiveNode], hist: &[LEv], dec: bool, salt: u64, deadline: Duration, stats: &mut Stats, which: &str) -> Bad {
+    let policy_no: Option<usize> = which.strip_prefix("C15:").and_then(|i| i.parse().ok());
+    let which = if policy_no.is_some() { "C15" } else { which };
     let mut bad: Bad = vec![];
     let n = nodes.len();
     let sec = secret(salt, 7);
@@ -259,6 +280,11 @@ pub async fn exec(nodes: &[LiveNode], hist: &[LEv], dec: bool, salt: u64, deadli
         match node.docs.api().import_namespace(Capability::Write(sec.clone())).await {
             Ok(d) => docs.push(d),
             Err(e) => return vec![("machinery", json!({}), format!("import: {e:#}"))],
+        }
+    }
+    if let Some(i) = policy_no {
+        if let Err(e) = docs[n - 1].set_download_policy(policies()[i].0.clone()).await {
+            return vec![("live_policy_can_be_set", json!({"live": true}), format!("set_download_policy on an existing, open document: {e:#}"))];
         }
     }
     let addr0 = nodes[0].router.endpoint().addr();
@@ -297,7 +323,7 @@ pub async fn exec(nodes: &[LiveNode], hist: &[LEv], dec: bool, salt: u64, deadli
             LEv::W(node, k) => {
                 let (node, key) = (node as usize, KEYS[k as usize]);
                 set_clock(ts);
-                let res = docs[node].set_bytes(nodes[node].author, key.to_vec(), format!("v-{node}-{k}-{step}").into_bytes()).await;
+                let res = docs[node].set_bytes(nodes[node].author, key.to_vec(), format!("v-{salt}-{node}-{k}-{step}").into_bytes()).await;
                 set_clock(NOW);
                 if res.is_ok() {
                     match docs[node].get_exact(nodes[node].author, key, false).await {
@@ -445,6 +471,45 @@ pub async fn exec(nodes: &[LiveNode], hist: &[LEv], dec: bool, salt: u64, deadli
             break;
         }
     }
+    if let (Some(i), true, true) = (policy_no, premise, quiet) {
+        // the contents written elsewhere: fetched by the last node exactly when its policy selects the key
+        let me = n - 1;
+        let own = nodes[me].author.to_bytes();
+        let (_, selects) = policies()[i];
+        let others: Vec<&Row> = written.iter().filter(|r| r.0 != own && r.4 > 0).collect();
+        let wanted: Vec<&Row> = others.iter().copied().filter(|r| selects(&r.1)).collect();
+        // only what the node still holds must arrive (a superseded entry's content may rightly be skipped)
+        let held = dump(&docs[me]).await.unwrap_or_default();
+        let start = std::time::Instant::now();
+        let mut missing = vec![];
+        loop {
+            missing.clear();
+            for r in &wanted {
+                if held.contains(*r) && !has_blob(&nodes[me], &r.3).await {
+                    missing.push((*r).clone());
+                }
+            }
+            if missing.is_empty() || start.elapsed() > deadline {
+                break;
+            }
+            tokio::time::sleep(Duration::from_millis(20)).await;
+        }
+        if !missing.is_empty() {
+            bad.push(("live_selected_content_is_fetched", witness("downloads"), format!("node {me} with policy {:?}: the contents of {} (selected by the policy, available at their writers, entries held) were not fetched within {deadline:?}", policies()[i].0, show_list(&missing))));
+        }
+        // give a wrong download the time the right ones took, at least 300 ms
+        tokio::time::sleep(Duration::from_millis(300)).await;
+        let mut surplus = vec![];
+        for r in &others {
+            if !selects(&r.1) && has_blob(&nodes[me], &r.3).await {
+                surplus.push((*r).clone());
+            }
+        }
+        if !surplus.is_empty() {
+            bad.push(("live_unselected_content_is_not_fetched", witness("downloads"), format!("node {me} with policy {:?}: fetched the contents of {} although the policy does not select these keys", policies()[i].0, show_list(&surplus))));
+        }
+        stats.downloads_expected += wanted.len() as u64;
+    }
     for t in event_tasks {
         t.abort();
     }
@@ -465,7 +530,7 @@ pub async fn exec(nodes: &[LiveNode], hist: &[LEv], dec: bool, salt: u64, deadli
     }
     set_clock(NOW);
     // only the clauses of the asking property
-    bad.retain(|(o, _, _)| *o == "machinery" || *o == "premise_not_met" || (which == "C12") == o.starts_with("live_"));
+    bad.retain(|(o, _, _)| *o == "machinery" || *o == "premise_not_met" || (which != "C04") == o.starts_with("live_"));
     bad
 }
 
@@ -507,12 +572,15 @@ pub fn run_live_family(ctx: &Ctx, report: &mut Report, which: &'static str) {
     let plan = match (which, ctx.quick()) {
         ("C04", true) => vec![(2u8, 3usize), (3, 2)],
         ("C04", false) => vec![(2, 4), (3, 3)],
+        ("C15", true) => vec![(2, 2)],
+        ("C15", false) => vec![(2, 3), (3, 2)],
         (_, true) => vec![(2, 2), (3, 2)],
         (_, false) => vec![(2, 3), (3, 3)],
     };
+    let variants: Vec<String> = if which == "C15" { (0..policies().len()).map(|i| format!("C15:{i}")).collect() } else { vec![which.to_string()] };
     for (n, depth) in plan {
         let evs = alphabet(n);
-        let mut cases: Vec<(u64, Vec<LEv>, bool)> = vec![];
+        let mut cases: Vec<(u64, Vec<LEv>, bool, String)> = vec![];
         let mut ordinal = (1u64 << 46) + ((n as u64) << 40);
         for d in 1..=depth {
             crate::util::for_each_sequence(evs.len(), d, |ix| {
@@ -520,10 +588,16 @@ pub fn run_live_family(ctx: &Ctx, report: &mut Report, which: &'static str) {
                 if !hist.iter().any(|e| matches!(e, LEv::W(..) | LEv::D(..))) {
                     return;
                 }
+                if which == "C15" && !hist.iter().any(|e| matches!(e, LEv::W(node, _) if *node != n - 1)) {
+                    // nothing for the policy holder to fetch
+                    return;
+                }
                 for dec in [false, true] {
-                    ordinal += 1;
-                    if ctx.mine(ordinal) {
-                        cases.push((ordinal, hist.clone(), dec));
+                    for v in &variants {
+                        ordinal += 1;
+                        if ctx.mine(ordinal) {
+                            cases.push((ordinal, hist.clone(), dec, v.clone()));
+                        }
                     }
                 }
             });
@@ -533,21 +607,22 @@ pub fn run_live_family(ctx: &Ctx, report: &mut Report, which: &'static str) {
         }
         let rt = runtime();
         let mut stats = Stats::default();
-        let results: anyhow::Result<Vec<(u64, Vec<LEv>, bool, Bad, bool)>> = rt.block_on(async {
+        let results: anyhow::Result<Vec<(u64, Vec<LEv>, bool, Bad, bool, String)>> = rt.block_on(async {
             let ns = nodes(n as usize).await?;
             let mut out = vec![];
-            for (ord, hist, dec) in cases {
+            for (ord, hist, dec, which) in cases {
+                let which = which.as_str();
                 if crate::util::watch::stopped() {
                     break;
                 }
                 let mut bad = exec(&ns, &hist, dec, ord, SHORT, &mut stats, which).await;
                 let mut rerun = false;
-                if bad.iter().any(|(o, _, _)| *o == "premise_not_met") {
+                if bad.iter().any(|(o, _, _)| *o == "premise_not_met" || *o == "live_selected_content_is_fetched") {
                     // a loaded machine: once more, with a long deadline
                     rerun = true;
                     bad = exec(&ns, &hist, dec, ord ^ (1 << 39), LONG, &mut stats, which).await;
                 }
-                out.push((ord, hist, dec, bad, rerun));
+                out.push((ord, hist, dec, bad, rerun, which.to_string()));
             }
             shutdown(ns).await;
             Ok(out)
@@ -562,7 +637,8 @@ pub fn run_live_family(ctx: &Ctx, report: &mut Report, which: &'static str) {
         match results {
             Err(e) => report.machinery_error(format!("live family: cannot set up {n} nodes: {e:#}")),
             Ok(rs) => {
-                for (ord, hist, dec, bad, rerun) in rs {
+                report.count("live_contents_expected_to_be_fetched", stats.downloads_expected);
+                for (ord, hist, dec, bad, rerun, variant) in rs {
                     report.evaluations += 1;
                     report.traces += 1;
                     report.transitions += hist.len() as u64;
@@ -571,7 +647,7 @@ pub fn run_live_family(ctx: &Ctx, report: &mut Report, which: &'static str) {
                     if rerun {
                         report.count("live_node_histories_run_again_with_long_deadline", 1);
                     }
-                    let case = json!({"live": {"nodes": n, "hist": hist, "dec": dec}, "salt": ord});
+                    let case = json!({"live": {"nodes": n, "hist": hist, "dec": dec, "which": variant}, "salt": ord});
                     for (o, w, d) in bad {
                         if o == "machinery" {
                             report.machinery_error(format!("live family: {d}"));
@@ -594,12 +670,14 @@ pub fn replay_live(case: &Value, which: &'static str) -> anyhow::Result<Option<(
     let hist: Vec<LEv> = serde_json::from_value(c["hist"].clone())?;
     let dec = c["dec"].as_bool().unwrap_or(false);
     let salt = case["salt"].as_u64().unwrap_or(1);
+    let which: String = c.get("which").and_then(|w| w.as_str()).unwrap_or(which).to_string();
+    let which = which.as_str();
     let rt = runtime();
     let bad: anyhow::Result<Bad> = rt.block_on(async {
         let ns = nodes(n).await?;
         let mut stats = Stats::default();
         let mut b = exec(&ns, &hist, dec, salt, SHORT, &mut stats, which).await;
-        if b.iter().any(|(o, _, _)| *o == "premise_not_met") {
+        if b.iter().any(|(o, _, _)| *o == "premise_not_met" || *o == "live_selected_content_is_fetched") {
             b = exec(&ns, &hist, dec, salt ^ (1 << 39), LONG, &mut stats, which).await;
         }
         b.retain(|(o, _, _)| *o != "premise_not_met");
